@@ -9,6 +9,7 @@
 #endif
 #define VF_INPUTS(X) X(unsigned char, s, [L + 1])
 #include "vf.h"
+#include "vf_str.h"
 #include "cJSON.c"
 #include "vf_frame.h"
 
